@@ -24,7 +24,7 @@ CLAIMED = {
  "C06": ("deterministic simulation with misbehaving peer: seeded credentials, salts, iteration counts and nonces against an independent RFC 5802/2831/4616/XEP-0484 server (OpenSSL), honest and 18 misbehaving message sequences, both SASL framings, split/coalesced delivery",
          "seeded search over inputs and server histories; byte-exact conformance oracle from an independent implementation plus 'no success without server proof' monitor; a clean batch is evidence, not proof",
          "transport, nonces and server are simulated; inputs are SASLprep-stable"),
- "C07": ("deterministic simulation with fault injection: seeded histories of requests (raw and 34 manager APIs), scheduler-chosen replies (any sender, any order, duplicated, never), deferred e2ee jobs, link losses and (non-)resumptions; exactly-once counters, sender attribution, bounded completion",
+ "C07": ("deterministic simulation with fault injection: seeded histories of requests (raw and 58 manager APIs), scheduler-chosen replies (any sender, any order, duplicated, never), deferred e2ee jobs, link losses and (non-)resumptions; exactly-once counters, sender attribution, bounded completion",
          "seeded search over histories and schedules with a real client; every reply and every asynchronous completion is a scheduler decision; a clean batch is evidence, not proof",
          "transport, clock, server and encryption extension are simulated; 'don't care' sender variants are not judged"),
  "C11": ("deterministic simulation with an adversarial party inside a live session: carbon wrappers from 16 sender variants in 4 shapes, bound-address history across reconnects and resumptions; unwrap => outer from == own bare JID, presented == flagged inner message",
